@@ -9,6 +9,7 @@ import Mathlib.Tactic.Linarith
 import Mathlib.Tactic.FinCases
 import Mathlib.Tactic.NormNum
 import Mathlib.Tactic.CasesM
+import Mathlib.Tactic.LinearCombination
 import Mathlib.Data.Fin.VecNotation
 import Mathlib.Algebra.BigOperators.Fin
 import TfelVerif.C25.Spec
@@ -144,6 +145,13 @@ lemma Ks3_mono {a b : F} (h : a ≤ b) : Ks3 a ≤ Ks3 b := by unfold Ks3; linar
 lemma Ks2_nonneg {μ : F} (hμ : 0 < μ) : 0 ≤ Ks2 μ := hμ.le
 lemma Ks2_mono {a b : F} (h : a ≤ b) : Ks2 a ≤ Ks2 b := h
 end order
+
+/-- a 36-list with the isotropic pattern is `x J + y K` as soon as its four distinct entries are right -/
+lemma iso6_of_pattern {F : Type} [Field F] (a b z s x y : F) (ha : a = (x + 2 * y) / 3) (hb : b = (x - y) / 3)
+    (hz : z = 0) (hs : s = y) :
+    [a, b, b, z, z, z, b, a, b, z, z, z, b, b, a, z, z, z, z, z, z, s, z, z, z, z, z, z, s, z, z, z, z, z, z, s]
+      = iso6 x y := by
+  subst ha hb hz hs; rfl
 
 section code
 variable {F : Type} [Field F] [LinearOrder F] [IsStrictOrderedRing F]
